@@ -32,8 +32,9 @@ TRUSTED = [
     "real functions on every generated name, not verified",
     "zipfile.ZipFile._extract_member's own name sanitisation (zipArcname/zipTarget in the model): library code, "
     "compared on every extracted member, not verified",
-    "POSIX file system semantics as seen through os.path.exists/isfile/isdir, os.remove, open(…, 'wb'), os.rename; "
-    "no symlinks, no concurrent modification of the tree (symlink races are outside the property)",
+    "POSIX file system semantics as seen through os.path.exists/isfile/isdir (follow symbolic links), lexists/islink, "
+    "os.remove, open(…, 'wb') (follows a link), os.rename (replaces a link); symbolic links are modelled by what they "
+    "finally resolve to; no concurrent modification of the tree (symlink races are outside the property)",
     "estimate_free_space: only its statvfs(dirname(dest)) failure is modelled; offered sizes are tiny",
 ]
 RULE = ("configuration matrix {output-file unset / new / existing file / existing dir / fifo / missing parent} x "
@@ -100,7 +101,7 @@ def gen_members(rng):
     for _ in range(k):
         nm = gen_name(rng, [c for c in COMPONENTS if "\x00" not in c])
         if rng.random() < 0.3:
-            nm = rng.choice(["inner.txt", "sub/inner.txt", "sub/", "../{DESTBASE}-plus/haha", "../keep.txt", "../../sibling.txt",
+            nm = rng.choice(["inner.txt", "sub/inner.txt", "sub/", "inner.lnk", "sub.lnk/inner.txt", "../{DESTBASE}-plus/haha", "../keep.txt", "../../sibling.txt",
                              "{DEST}/x", "{DEST}", "{DEST}-plus/haha", "a/../../keep.txt", "./a", "a//b", "C:\\x", "C:/x"])
         out.append([nm, rng.choice(PERMS)])
     return out
@@ -119,7 +120,40 @@ def recv_case(rng, name=None, output=None, accept=None, pre=None, mode=None, lev
              level=level or rng.choice(["full", "full", "full", "decide"]))
     if mode == "dir":
         c["members"] = gen_members(rng)
+    if name is None and rng.random() < 0.15:
+        c["link"] = rand_link(rng)
     return c
+
+
+LINK_TO = ["dangling", "dangling", "file", "dir", "inside_file", "inside_dangling", "chain_dangling", "chain_file", "chain_dir"]
+
+
+def rand_link(rng):
+    return dict(where=rng.choice(["dest", "dest", "tmp", "tmp", "dest+tmp"]), to=rng.choice(LINK_TO), abs=rng.random() < 0.3)
+
+
+def link_corpus(rng):
+    """symbolic links at the destination name / the staging name, with and without --output-file (existing directory)"""
+    out = []
+    # the witnesses of existing_entry_refused_fails_on_current / staging_is_own_file_fails_on_current
+    for where, to in (("dest", "dangling"), ("tmp", "file"), ("tmp", "dangling")):
+        c = recv_case(rng, name="latest.log", output="unset", accept=True, pre="none", mode="file", level="full")
+        c["link"] = dict(where=where, to=to, abs=False)
+        out.append(c)
+    for where, to, o, md, acc, ab in itertools.product(["dest", "tmp", "dest+tmp"], ["dangling", "file", "dir", "inside_file", "chain_dangling", "chain_file"],
+                                                       ["unset", "dir", "dir_slash"], ["file", "dir"], [True, False], [False, True]):
+        if ab and to not in ("dangling", "file"):
+            continue
+        mk = go_case if (acc and md == "dir") or (not acc and md == "file") else recv_case
+        c = mk(rng, name="latest.log", output=o, accept=acc, pre="none", mode=md) if mk is go_case else \
+            recv_case(rng, name="latest.log", output=o, accept=acc, pre="none", mode=md, level="full")
+        c.update(answer="y", zipmode="zipfile/deflated", link=dict(where=where, to=to, abs=ab))
+        if "fault" in c:
+            c["fault"] = "none"
+        if md == "dir":
+            c["members"] = [["inner.txt", 0o600], ["inner.lnk", 0o644], ["sub.lnk/inner.txt", 0o600], ["sub/x", 0o644]]
+        out.append(c)
+    return out
 
 
 def go_case(rng, **kw):
@@ -221,6 +255,7 @@ def cases(rng, tier):
                                         "a/b/../../..", ".", "./", "a\\b/c", "\u00e4/../x", "/a/", "//a/..", "a/" + LONG]))
     out.extend(go_corpus(rng))
     out.extend(entry_corpus(rng))
+    out.extend(link_corpus(rng))
     # --- generated ----------------------------------------------------------------------------
     n = 1 if tier == "quick" else 25
     for _ in range(450 * n):
@@ -264,6 +299,12 @@ class Sandbox:
         self.put_file(os.path.join(self.cwd, "keep.txt"), b"keep me")
         os.mkdir(os.path.join(self.cwd, "keepdir"))
         self.put_file(os.path.join(self.cwd, "keepdir", "inner.txt"), b"keep me too")
+        # what the user's symbolic links point to: a directory OUTSIDE the working directory (inside the snapshot)
+        self.vault = os.path.join(self.outer, "vault")
+        os.mkdir(self.vault)
+        self.put_file(os.path.join(self.vault, "victim.txt"), b"victim outside the working directory")
+        os.mkdir(os.path.join(self.vault, "vdir"))
+        self.put_file(os.path.join(self.vault, "vdir", "inner.txt"), b"victim in a directory outside")
 
     @staticmethod
     def put_file(path, data, mode=0o644):
@@ -274,6 +315,8 @@ class Sandbox:
     def put_dir(self, path):
         os.mkdir(path)
         self.put_file(os.path.join(path, "inner.txt"), b"precious inner")
+        os.symlink(os.path.join(self.vault, "victim.txt"), os.path.join(path, "inner.lnk"))
+        os.symlink(os.path.join(self.vault, "vdir"), os.path.join(path, "sub.lnk"))
 
     def subst(self, s, dest=None):
         s = s.replace("{OUTER}", self.outer).replace("{CWD}", self.cwd)
@@ -287,7 +330,9 @@ class Sandbox:
             for nm in dirs + files:
                 p = os.path.join(root, nm)
                 st = os.lstat(p)
-                if stat.S_ISDIR(st.st_mode):
+                if stat.S_ISLNK(st.st_mode):
+                    snap[p] = ("l", os.readlink(p), None)
+                elif stat.S_ISDIR(st.st_mode):
                     snap[p] = ("d", stat.S_IMODE(st.st_mode), None)
                 elif stat.S_ISREG(st.st_mode):
                     try:
@@ -304,6 +349,8 @@ class Sandbox:
     def cleanup(self):
         for root, dirs, files in os.walk(self.outer):
             for d in dirs:
+                if os.path.islink(os.path.join(root, d)):
+                    continue
                 try:
                     os.chmod(os.path.join(root, d), 0o700)
                 except OSError:
@@ -312,10 +359,17 @@ class Sandbox:
 
 
 def kind_of(p):
+    """the entry as os.lstat sees it: - f d o, or l? for a symbolic link that finally resolves to ? (l- = dangling)"""
     try:
         st = os.lstat(p)
     except (OSError, ValueError):
         return "-"
+    if stat.S_ISLNK(st.st_mode):
+        try:
+            t = os.stat(p)
+        except (OSError, ValueError):
+            return "l-"
+        return "l" + ("d" if stat.S_ISDIR(t.st_mode) else "f" if stat.S_ISREG(t.st_mode) else "o")
     if stat.S_ISDIR(st.st_mode):
         return "d"
     if stat.S_ISREG(st.st_mode):
@@ -428,9 +482,27 @@ def oracle(before, after, cwd, out_abs, out_was_dir, out_set, name, announced, s
     def below(p, d):
         return d is not None and p.startswith(d + "/")
 
+    # where a symbolic link the user already had at the staging name finally points (for naming the finding only)
+    def resolve(q):
+        for _ in range(8):
+            if before.get(q, ("",))[0] != "l":
+                break
+            q = os.path.normpath(os.path.join(os.path.dirname(q), before[q][1]))
+        return q
+
+    staged_through = None
+    if dest is not None and before.get(dest + ".tmp", ("",))[0] == "l":
+        staged_through = resolve(dest + ".tmp")
+    dangling_dest = dest is not None and not overwrite_ok and before.get(dest, ("",))[0] == "l" and resolve(dest) not in before
+
     for p in sorted(set(before) | set(after)):
         b, a = before.get(p), after.get(p)
         if b == a:
+            continue
+        if staged_through is not None and p == staged_through:
+            what = "created" if b is None else ("removed" if a is None else f"changed {b} -> {a}")
+            viol.append(("tmp-symlink-followed", f"{p!r} {what}: open({dest + '.tmp'!r}, 'wb') followed the symbolic link the user "
+                         f"had at the staging name; the destination announced for offer {name!r} is {dest!r}"))
             continue
         if b is None:  # created
             if dest is not None and (p == dest or below(p, dest) or p == dest + ".tmp"):
@@ -446,6 +518,9 @@ def oracle(before, after, cwd, out_abs, out_was_dir, out_set, name, announced, s
                 viol.append(("tmp-clobbers-existing-file", f"existing {p!r} {what}: the staging file of {dest!r} replaced a file the user already had"))
             elif dest is not None and p == dest and overwrite_ok and b[0] != "d":
                 continue  # the allowed overwrite: --output-file names this file, or the existing directory containing it
+            elif dangling_dest and p == dest:
+                viol.append(("dangling-symlink-destination-replaced", f"existing symbolic link {p!r} -> {b[1]!r} (dangling) {what}: "
+                             f"os.path.exists() is false for it, so the offer was not refused and the rename replaced the link"))
             elif dest is not None and p == dest:
                 viol.append(("clobbers-existing-destination", f"existing {p!r} {what} without --output-file"))
             elif below(p, dest):
@@ -455,7 +530,7 @@ def oracle(before, after, cwd, out_abs, out_was_dir, out_set, name, announced, s
     if announced is not None and succeeded and check_announced:
         if announced != dest:
             viol.append(("announced-destination-not-child", f"offer {name!r}: receiver decided {announced!r}, allowed is {dest!r}"))
-    if not out_set and dest is not None and dest in before and succeeded:
+    if not out_set and dest is not None and dest in before and succeeded and not dangling_dest:
         viol.append(("existing-destination-not-rejected", f"{dest!r} existed and --output-file was not given, but the offer was accepted"))
     return viol
 
@@ -484,8 +559,10 @@ def register(sb, lines, exp):
     reg = []
     snap = sb.snapshot()
     for p in sorted(snap):
+        if p.endswith(".hop"):
+            continue   # middle link of a chain: the model knows links by what they finally resolve to, not their aliasing
         reg.append(p)
-        lines.append(f"fs {hx(p)} {snap[p][0]}")
+        lines.append(f"fs {hx(p)} {kind_of(p)}")
         exp.append("ok")
     return reg
 
@@ -514,7 +591,7 @@ def prepare(case, sb):
     base = out_abs if out_was_dir else sb.cwd
     would_be = base + "/" + seg
     placeable = seg not in ("", ".", "..") and os_clean(seg) and (not out_set or out_was_dir)
-    if placeable and not os.path.lexists(would_be):
+    if placeable and not os.path.lexists(would_be) and "dest" not in (case.get("link") or {}).get("where", ""):
         if case["pre"] == "file":
             sb.put_file(would_be, b"old destination")
         elif case["pre"] == "dir":
@@ -534,6 +611,30 @@ def prepare(case, sb):
             sb.put_file(would_be + ".tmp", b"precious, unrelated to the transfer")
         else:
             sb.put_dir(would_be + ".tmp")
+
+    # symbolic links the user already has: at the destination name, at the staging name (both may sit inside an
+    # existing --output-file directory), pointing out of the working directory into sb.vault
+    link = case.get("link")
+    if placeable and link:
+        targets = {"dangling": sb.vault + "/2024.log", "file": sb.vault + "/victim.txt", "dir": sb.vault + "/vdir",
+                   "inside_file": sb.cwd + "/keep.txt", "inside_dangling": sb.cwd + "/not-yet"}
+        for where in link["where"].split("+"):
+            at = would_be + (".tmp" if where == "tmp" else "")
+            if os.path.lexists(at):
+                continue
+            to = link["to"]
+            chain = to.startswith("chain_")
+            tgt = targets[to[6:] if chain else to]
+            if where == "tmp" and not os.path.lexists(tgt):
+                tgt += ".staged"       # two dangling links never share a target (the model does not know about aliasing)
+            if chain:        # at -> hop -> target
+                hop = at + ".hop"
+                if os.path.lexists(hop):
+                    continue
+                os.symlink(tgt if link.get("abs") else os.path.relpath(tgt, os.path.dirname(hop)), hop)
+                os.symlink(os.path.basename(hop), at)
+            else:
+                os.symlink(tgt if link.get("abs") else os.path.relpath(tgt, os.path.dirname(at)), at)
 
     return dict(name=name, out_set=out_set, out_file=out_file, out_abs=out_abs, out_was_dir=out_was_dir,
                 would_be=would_be, placeable=placeable)
